@@ -32,6 +32,8 @@
                  captured_edges are not its segments / edges)
      C17.path-error-missed    no reading has a walk but gfapy returned one
      C17.path-error-spurious  every reading has a walk but gfapy raised
+     C17.reading no single reading explains the answers to all the groups of the
+                 document, although each answer alone is explained by some reading
      C17.set     induced set (segments as a set, edges as a BAG of name + what
                  they join, so that unnamed edges count one by one) differs
      C17.set-error  gfapy raised on a set that is fully defined, or answered
@@ -98,9 +100,8 @@ Run(ev, k, D) ==
 
 -----------------------------------------------------------------------------
 (* the queries on the final document *)
-PathFails(D, q) ==
-  LET B == ByReading(D, q.id)
-      walks == WalksIn(B)
+PathFails(D, q, B) ==
+  LET walks == WalksIn(B)
       mayfail == MayFailIn(B)
       A == IF q.a.r = "FOREIGN" THEN {"foreign"}
            ELSE IF q.a.r = "ok" THEN
@@ -129,11 +130,26 @@ SetFails(D, q) ==
         ELSE (IF SetMayFail(D, q.id) THEN {} ELSE {"C17.set-error"}) IN
   One(q.a, X, E) \cup One(q.b, X, none) \cup One(q.c, {}, E)
 
-QueryFails(D, q) ==
+\* B: Groups!ByReading of the path, <<>> for a set
+QueryFails(D, q, B) ==
   LET ln == LineNamed(D, q.id) IN
   IF ln.rt \notin {"O", "U"} THEN (IF q.rt = "-" THEN {} ELSE {"C17.items"})
   ELSE IF q.rt # ln.rt THEN {"C17.items"}
-  ELSE IF ln.rt = "O" THEN PathFails(D, q) ELSE SetFails(D, q)
+  ELSE IF ln.rt = "O" THEN PathFails(D, q, B) ELSE SetFails(D, q)
+
+\* ONE reading explains the answers to all the groups of the document (judged only
+\* when every answer on its own is acceptable): walks are outcomes of that reading,
+\* errors are raised where that reading has no walk
+ExplainedBy(D, q, B, R) ==
+  LET ln == LineNamed(D, q.id) IN
+  IF ln.rt = "O" /\ q.rt = "O" THEN
+    (IF q.a.r = "ok" THEN Refs(q.a.w) \in WalksUnder(B, R)
+     ELSE IF IsErr(q.a.r) THEN WalksUnder(B, R) = {} ELSE TRUE)
+  ELSE IF ln.rt = "U" /\ q.rt = "U" THEN
+    (IF IsErr(q.a.r) THEN SetMayFailUnder(D, q.id, R) ELSE TRUE)
+  ELSE TRUE
+ReadingFails(D, qs, Bs) ==
+  IF \E R \in Readings : \A i \in DOMAIN qs : ExplainedBy(D, qs[i], Bs[i], R) THEN {} ELSE {"C17.reading"}
 
 \* validate() may complain exactly when some group does not resolve
 GroupIdsOf(D) == {D[i].name : i \in {j \in DOMAIN D : D[j].rt \in {"O", "U"}}}
@@ -158,8 +174,10 @@ ExpFails(D, c) ==
 Fails(c) ==
   LET r == Run(c.ev, 1, <<>>) IN
   IF r.f # {} THEN r.f
-  ELSE UNION {QueryFails(r.d, c.q[i]) : i \in DOMAIN c.q}
-       \cup ValFails(r.d, c.val) \cup ExpFails(r.d, c)
+  ELSE LET Bs == [i \in DOMAIN c.q |-> IF LineNamed(r.d, c.q[i].id).rt = "O" THEN ByReading(r.d, c.q[i].id) ELSE <<>>]
+           qf == UNION {QueryFails(r.d, c.q[i], Bs[i]) : i \in DOMAIN c.q} IN
+       qf \cup (IF qf = {} THEN ReadingFails(r.d, c.q, Bs) ELSE {})
+          \cup ValFails(r.d, c.val) \cup ExpFails(r.d, c)
 
 \* for replays (GROUPS_EXPLAIN=1): what the specification expects of every group
 WalkText(w) == [i \in DOMAIN w |-> w[i].id \o w[i].o]
